@@ -72,6 +72,7 @@ func (sc *Scenario) Clone() *Scenario {
 		}
 		m.Fails = append([]string(nil), n.Fails...)
 		m.FailOnce = append([]string(nil), n.FailOnce...)
+		m.Lookups = append([]string(nil), n.Lookups...)
 		out.Nodes = append(out.Nodes, m)
 	}
 	return out
